@@ -376,7 +376,8 @@ def inject_units(tier, integs=("generic", "rdflib")):
       explanation="H-INJECT: the reference decoder must call the mutated stream invalid (else discarded); pyjelly must raise at or before the offending row; what it yielded before must be a prefix of the valid part")
 def c16(tier):
     us = inject_units(tier)
-    return us + [twin(us[0])]
+    rs = [u for u in read_units(tier) if tier != "quick" or u["params"]["n"] <= 2]
+    return us + rs + [twin(us[0])]
 
 
 @prop("C17", functions=REJ_FUNCS + ["pyjelly/options.py:MAX_LOOKUP_SIZE"],
@@ -403,6 +404,13 @@ def c17(tier):
                 else:
                     for k2 in range(11):
                         us.append(U(f"hostile:{integ}:p{phys}:k{k1}.{k2}", "reject", "hostile", dict(integ=integ, phys=phys, k1=k1, k2=k2, k3=None, entries=ent), timeout=900))
+    # a table never accepts an entry id / reference beyond its declared size, from any reader state (ids symbolic)
+    us += [u for u in read_units(tier) if tier != "quick" or u["params"]["n"] <= 2]
+    # termination when the bytes arrive in short reads (exhausted source asked again > 200 times = hang)
+    for delim, fs in ((True, 1), (False, 250)):
+        base = dict(integ="generic", phys=1, K=3, fs=fs, delimited=delim)
+        base["len"] = io_len(base)
+        us.append(U(f"hostile-sched:d{int(delim)}", "iosched", "sched", base, timeout=300))
     return us + [twin(us[0]), twin(us[6])]
 
 
@@ -450,6 +458,8 @@ def c20(tier):
         for phys in (1, 2, 3):
             for pf in (4, 0):
                 us.append(U(f"fault:{integ}:p{phys}:pf{pf}", "fault", "fault", dict(integ=integ, phys=phys, prefixes=pf, datatypes=4), timeout=600))
+                if pf == 4:
+                    us.append(U(f"fault:{integ}:p{phys}:pf{pf}:rep", "fault", "fault", dict(integ=integ, phys=phys, prefixes=pf, datatypes=4, rep=True), timeout=600))
     return us + [twin(us[0])]
 
 
@@ -462,7 +472,7 @@ def c20(tier):
 def c18(tier):
     us = []
     for phys in (1, 2, 3):
-        for s_ in range(5):
+        for s_ in range(7):
             us.append(U(f"overcap:p{phys}:s{s_}", "overcap", "overcap", dict(phys=phys, s=s_, maxpf=3 if tier == "quick" else 5, fs=250 if s_ % 2 else 1,
                              gmax=4 if (tier != "quick" or phys == 1) else 2, dtmax=3 if (tier != "quick" or phys == 1) else 2), timeout=900))
     return us + [twin(us[0])]
@@ -476,7 +486,7 @@ def c18(tier):
 def c15(tier):
     from vpkg import alpha
     us = []
-    alph = ["rS", "rP", "rO" if tier != "quick" else "rO5", "rG"]
+    alph = ["rS", "rP", "rO" if tier != "quick" else "rO5", "rG4"]
     for phys in (1, 2, 3):
         for sp in range(len(alpha.RSPINES[phys])):
             for s2 in range(3):
